@@ -97,6 +97,115 @@ fn s_vals(thorough: bool) -> Vec<Value> {
 fn s_vec(n: usize) -> Value {
     Value::Array((0..n).map(|i| s_val(i as u32, pat(i % 5), (i % 256) as u8)).collect())
 }
+/// lengths of slices / vectors whose elements are serialized one by one: EVERY length of an
+/// initial segment, so that the encoded size (8 bytes length + items of 1..6 bytes) passes every
+/// small boundary (a pointer: 8, a fat pointer: 16, pointer + vtable + entry: 24, version +
+/// fat pointer: 20, the inline buffer: 64) element by element
+fn dense_lens(thorough: bool) -> Vec<usize> {
+    let mut v: Vec<usize> = (0..=24).collect();
+    if thorough {
+        v.extend(25..=80);
+        v.extend([255, 256, 257, 1000]);
+    }
+    v
+}
+fn o_val(w: u32, tag: Option<u8>) -> Value {
+    json!({"w": w, "tag": tag})
+}
+/// mode 0: every third element without tag (5 bytes), the others with (6 bytes); 1: no tags; 2: all tagged
+fn o_vec(n: usize, mode: u8) -> Value {
+    Value::Array(
+        (0..n)
+            .map(|i| {
+                let tag = match mode {
+                    0 => if i % 3 == 0 { None } else { Some((i % 256) as u8) },
+                    1 => None,
+                    _ => Some((255 - i % 256) as u8),
+                };
+                o_val(10 * i as u32 + 1, tag)
+            })
+            .collect(),
+    )
+}
+fn o_vecs(thorough: bool) -> Vec<Value> {
+    let mut v: Vec<Value> = dense_lens(thorough).into_iter().map(|n| o_vec(n, 0)).collect();
+    for n in 1..=12 {
+        v.push(o_vec(n, 1));
+        v.push(o_vec(n, 2));
+    }
+    v
+}
+fn o_vals() -> Vec<Value> {
+    vec![o_val(0, None), o_val(7, Some(0)), o_val(u32::MAX, Some(255)), o_val(0x0102_0304, None)]
+}
+/// 1-byte (None) and 5-byte (Some) elements
+fn opt_vec(n: usize, mode: u8) -> Value {
+    Value::Array(
+        (0..n)
+            .map(|i| match mode {
+                0 => if i % 3 == 0 { Value::Null } else { json!((i as u32).wrapping_mul(0x0101_0101)) },
+                1 => Value::Null,
+                _ => json!(u32::MAX - i as u32),
+            })
+            .collect(),
+    )
+}
+fn opt_vecs(thorough: bool) -> Vec<Value> {
+    let mut v: Vec<Value> = dense_lens(thorough).into_iter().map(|n| opt_vec(n, 0)).collect();
+    // all-None: one byte per element, the encoded size takes every value 8..=88
+    v.extend((1..=80).map(|n| opt_vec(n, 1)));
+    v.extend((1..=16).map(|n| opt_vec(n, 2)));
+    v
+}
+fn e_val(i: usize) -> Value {
+    match i % 3 {
+        0 => json!("A"),
+        1 => json!({"B": (i as u32).wrapping_mul(0x0101_0101)}),
+        _ => json!({"C": pat(i % 7)}),
+    }
+}
+fn e_vec(n: usize) -> Value {
+    Value::Array((0..n).map(e_val).collect())
+}
+fn e_vals() -> Vec<Value> {
+    let mut v = vec![json!("A"), json!({"B": 0u32}), json!({"B": u32::MAX})];
+    v.extend(string_lens(false).into_iter().map(|n| json!({"C": pat(n)})));
+    v
+}
+fn u8_vec(n: usize) -> Value {
+    Value::Array((0..n).map(|i| json!((i * 7 + 3) % 256)).collect())
+}
+fn u8_lens(thorough: bool) -> Vec<usize> {
+    let mut v: Vec<usize> = (0..=80).collect();
+    if thorough {
+        v.extend([255, 256, 257, 1000, 70000]);
+    }
+    v
+}
+fn string_vec(n: usize) -> Value {
+    Value::Array((0..n).map(|i| json!(pat(i % 9))).collect())
+}
+fn p_vec(n: usize) -> Value {
+    Value::Array((0..n).map(|i| json!({"x": i as u32, "y": u32::MAX - i as u32})).collect())
+}
+fn tup_vec(n: usize) -> Value {
+    Value::Array((0..n).map(|i| json!([i as u32, u32::MAX - i as u32])).collect())
+}
+fn u8s() -> Vec<Value> {
+    vec![json!(0u8), json!(1u8), json!(127u8), json!(128u8), json!(255u8)]
+}
+fn u64s() -> Vec<Value> {
+    vec![json!(0u64), json!(1u64), json!(u32::MAX as u64), json!(u32::MAX as u64 + 1), json!(0x0102_0304_0506_0708u64), json!(i64::MAX as u64 + 1), json!(u64::MAX)]
+}
+fn tup2s() -> Vec<Value> {
+    vec![json!([0u32, 0u32]), json!([1u32, 2u32]), json!([u32::MAX, 0u32]), json!([0u32, u32::MAX]), json!([u32::MAX, u32::MAX]), json!([0x0102_0304u32, 0x0506_0708u32])]
+}
+fn tup3s() -> Vec<Value> {
+    vec![json!([0u8, 0u8, 0u8]), json!([1u8, 2u8, 3u8]), json!([255u8, 0u8, 128u8]), json!([255u8, 255u8, 255u8])]
+}
+fn chars() -> Vec<Value> {
+    vec![json!("a"), json!("\u{0}"), json!("\u{e4}"), json!("\u{20ac}"), json!("\u{d7ff}"), json!("\u{e000}"), json!("\u{10ffff}")]
+}
 fn closures() -> Vec<Value> {
     vec![json!({"mul": 1u32, "add": 0u32}), json!({"mul": 3u32, "add": 7u32}), json!({"mul": u32::MAX, "add": 1u32})]
 }
@@ -124,6 +233,24 @@ pub fn arg_values(kind: &str, thorough: bool) -> Vec<Value> {
         "p" | "rp" => vec![json!({"x": 0u32, "y": 0u32}), json!({"x": 1u32, "y": 2u32}), json!({"x": u32::MAX, "y": u32::MAX})],
         "tup" => string_lens(false).into_iter().map(|n| json!([n as u32, pat(n)])).collect(),
         "optstring" => std::iter::once(Value::Null).chain(string_lens(false).into_iter().map(|n| json!(pat(n)))).collect(),
+        "slo" | "rvo" | "veco" => o_vecs(thorough),
+        "slopt" => opt_vecs(thorough),
+        "sle" => dense_lens(thorough).into_iter().map(e_vec).collect(),
+        "slu8" => u8_lens(thorough).into_iter().map(u8_vec).collect(),
+        "sls" => (0..=8).chain(vec_lens(thorough)).filter(|n| *n <= 300).map(s_vec).collect(),
+        "slstring" => (0..=8).chain(vec_lens(thorough)).map(string_vec).collect(),
+        "slp" => (0..=8).chain(vec_lens(thorough)).map(p_vec).collect(),
+        "sltup" => (0..=8).chain(vec_lens(thorough)).map(tup_vec).collect(),
+        "ro" | "o" => o_vals(),
+        "re" | "e" => e_vals(),
+        "roptstring" => arg_values("optstring", thorough),
+        "rvu32" => arg_values("slice", thorough),
+        "u8" => u8s(),
+        "u64" => u64s(),
+        "tup2" => tup2s(),
+        "tup3" => tup3s(),
+        "bool" | "optunit" => vec![json!(false), json!(true)],
+        "char" => chars(),
         k => vcommon::machinery_error(&format!("no value list for argument kind {}", k)),
     }
 }
@@ -141,6 +268,25 @@ pub fn arg_default(kind: &str) -> Value {
         "p" | "rp" => json!({"x": 1u32, "y": 2u32}),
         "tup" => json!([7u32, "tup"]),
         "optstring" => json!("opt"),
+        // the defaults of the serialized slices / vectors are larger than a fat pointer
+        "slo" | "rvo" | "veco" => o_vec(3, 0),
+        "slopt" => opt_vec(4, 0),
+        "sle" => e_vec(3),
+        "slu8" => u8_vec(3),
+        "sls" => s_vec(1),
+        "slstring" => string_vec(2),
+        "slp" => p_vec(1),
+        "sltup" => tup_vec(1),
+        "ro" | "o" => o_val(7, Some(9)),
+        "re" | "e" => json!({"C": "cee"}),
+        "roptstring" => json!("opt"),
+        "rvu32" => json!([1u32, 2u32, 3u32]),
+        "u8" => json!(200u8),
+        "u64" => json!(0x0102_0304_0506_0708u64),
+        "tup2" => json!([1u32, 2u32]),
+        "tup3" => json!([1u8, 2u8, 3u8]),
+        "bool" | "optunit" => json!(true),
+        "char" => json!("x"),
         k => vcommon::machinery_error(&format!("no default for argument kind {}", k)),
     }
 }
@@ -196,6 +342,12 @@ pub fn ret_values(kind: &str, thorough: bool) -> Vec<Value> {
             }
             v
         }
+        "u64" => u64s(),
+        "u8" => u8s(),
+        "tup2" => tup2s(),
+        "tup3" => tup3s(),
+        "veco" => o_vecs(thorough),
+        "e" => e_vals(),
         k => vcommon::machinery_error(&format!("no value list for return kind {}", k)),
     }
 }
@@ -215,6 +367,12 @@ pub fn ret_default(kind: &str) -> Value {
         "boxfn" => json!({"mul": 3u32, "add": 7u32}),
         "fut" | "afut_u32" => json!({"pending": 1u32, "val": 11u32, "wake": "during"}),
         "afut_string" => json!({"pending": 1u32, "sval": "async ret", "wake": "during"}),
+        "u64" => json!(0x1112_1314_1516_1718u64),
+        "u8" => json!(201u8),
+        "tup2" => json!([3u32, 4u32]),
+        "tup3" => json!([4u8, 5u8, 6u8]),
+        "veco" => o_vec(3, 0),
+        "e" => json!({"C": "ret-cee"}),
         k => vcommon::machinery_error(&format!("no default for return kind {}", k)),
     }
 }
@@ -234,12 +392,36 @@ fn short_values(kind: &str) -> Vec<Value> {
         "p" | "rp" => vec![json!({"x": 0u32, "y": 0u32}), json!({"x": u32::MAX, "y": 1u32})],
         "tup" => vec![json!([0u32, ""]), json!([9u32, pat(50)])],
         "optstring" => vec![Value::Null, json!(pat(50))],
+        "slo" | "rvo" | "veco" => [0usize, 1, 2, 3, 10].iter().map(|n| o_vec(*n, 0)).collect(),
+        "slopt" => vec![opt_vec(0, 0), opt_vec(8, 1), opt_vec(9, 1), opt_vec(2, 2), opt_vec(12, 0)],
+        "sle" => [0usize, 2, 9].iter().map(|n| e_vec(*n)).collect(),
+        "slu8" => [0usize, 8, 9, 65].iter().map(|n| u8_vec(*n)).collect(),
+        "sls" => [0usize, 2, 64].iter().map(|n| s_vec(*n)).collect(),
+        "slstring" => [0usize, 2, 13].iter().map(|n| string_vec(*n)).collect(),
+        "slp" => [0usize, 2, 13].iter().map(|n| p_vec(*n)).collect(),
+        "sltup" => [0usize, 2, 13].iter().map(|n| tup_vec(*n)).collect(),
+        "ro" | "o" => vec![o_val(0, None), o_val(u32::MAX, Some(255))],
+        "re" | "e" => vec![json!("A"), json!({"B": u32::MAX}), json!({"C": pat(50)})],
+        "roptstring" => vec![Value::Null, json!(pat(50))],
+        "rvu32" => [0usize, 13, 65].iter().map(|n| u32_vec(*n)).collect(),
+        "u8" => vec![json!(0u8), json!(255u8)],
+        "u64" => vec![json!(0u64), json!(u64::MAX)],
+        "tup2" => vec![json!([0u32, 0u32]), json!([u32::MAX, 1u32])],
+        "tup3" => vec![json!([0u8, 0u8, 0u8]), json!([255u8, 1u8, 128u8])],
+        "bool" | "optunit" => vec![json!(false), json!(true)],
+        "char" => vec![json!("a"), json!("\u{10ffff}")],
         k => vcommon::machinery_error(&format!("no short value list for argument kind {}", k)),
     }
 }
 
 fn size_varying(kind: &str) -> bool {
     matches!(kind, "string" | "str" | "rstring")
+}
+
+/// serialized element by element, with a size that depends on the value (whether or not the
+/// argument is a reference)
+fn serialized_varying(kind: &str) -> bool {
+    matches!(kind, "slo" | "slopt" | "sle" | "rvo" | "veco")
 }
 
 /// The complete case list of one method.
@@ -262,7 +444,7 @@ pub fn cases_of(tm: &TraitMeta, mm: &MethodMeta, thorough: bool) -> Vec<Case> {
 
     // (1) every argument position swept over its value list, the others at their defaults
     for (i, k) in mm.args.iter().enumerate() {
-        if big && !(size_varying(k) && (i >= mm.args.len() - 8 || i < 4)) {
+        if big && !((size_varying(k) || serialized_varying(k)) && (i >= mm.args.len() - 8 || i < 4)) {
             continue; // 64-argument methods: see (6)
         }
         for v in arg_values(k, thorough) {
@@ -291,6 +473,33 @@ pub fn cases_of(tm: &TraitMeta, mm: &MethodMeta, thorough: bool) -> Vec<Case> {
                         let mut c = base.clone();
                         c.args[i] = json!(pat(*a));
                         c.args[j] = json!(pat(*b));
+                        out.push(c);
+                    }
+                }
+            }
+        }
+    }
+    // (3b) two element-wise serialized arguments: the second one starts at every small offset
+    //      and both cross the fat-pointer size
+    if !big {
+        for i in 0..mm.args.len() {
+            for j in i + 1..mm.args.len() {
+                if !(serialized_varying(mm.args[i]) && serialized_varying(mm.args[j])) {
+                    continue;
+                }
+                let pick = |k: &str, n: usize| -> Value {
+                    match k {
+                        "slopt" => opt_vec(n, 0),
+                        "sle" => e_vec(n),
+                        _ => o_vec(n, 0),
+                    }
+                };
+                let top = if thorough { 12 } else { 6 };
+                for a in 0..=top {
+                    for b in 0..=top {
+                        let mut c = base.clone();
+                        c.args[i] = pick(mm.args[i], a);
+                        c.args[j] = pick(mm.args[j], b);
                         out.push(c);
                     }
                 }
@@ -336,6 +545,12 @@ pub fn cases_of(tm: &TraitMeta, mm: &MethodMeta, thorough: bool) -> Vec<Case> {
                         "string" | "str" => json!(pat(i)),
                         "slice" => u32_vec(i % 5),
                         "s" | "rs" => s_val(i as u32, pat(i % 9), i as u8),
+                        "slo" => o_vec(i % 7, 0),
+                        "slopt" => opt_vec(i % 7, 0),
+                        "u64" => json!(0x1000_0000_0000_0000u64 + i as u64),
+                        "u8" => json!(i as u8),
+                        "tup2" => json!([i as u32, 0x2000_0000u32 + i as u32]),
+                        "tup3" => json!([i as u8, (i + 64) as u8, (i + 128) as u8]),
                         _ => vals[i % vals.len()].clone(),
                     },
                 };
@@ -424,38 +639,68 @@ pub fn cases_of(tm: &TraitMeta, mm: &MethodMeta, thorough: bool) -> Vec<Case> {
     out
 }
 
+/// Model of the encoding of one argument (bytes written into the caller's argument block).
+/// Used only to classify states, never for a verdict.
+pub fn model_arg_size(kind: &str, v: &Value, by_ref: bool) -> usize {
+    let slen = |v: &Value| v.as_str().map(|s| s.len()).unwrap_or(0);
+    let ssize = |v: &Value| 4 + 8 + slen(&v["b"]) + 1;
+    let alen = |v: &Value| v.as_array().map(|a| a.len()).unwrap_or(0);
+    let osize = |v: &Value| 4 + 1 + if v["tag"].is_null() { 0 } else { 1 };
+    let esize = |v: &Value| 1 + if let Some(c) = v.get("C") { 8 + slen(c) } else if v.get("B").is_some() { 4 } else { 0 };
+    let sum = |v: &Value, f: &dyn Fn(&Value) -> usize| v.as_array().map(|a| a.iter().map(f).sum::<usize>()).unwrap_or(0);
+    match kind {
+        "u32" => 4,
+        "ru32" => if by_ref { 8 } else { 4 },
+        "string" => 8 + slen(v),
+        "str" => 16,
+        "rstring" => if by_ref { 8 } else { 8 + slen(v) },
+        "slice" => if by_ref { 16 } else { 8 + 4 * alen(v) },
+        "s" => ssize(v),
+        "rs" => if by_ref { 8 } else { ssize(v) },
+        "vecs" => 8 + sum(v, &ssize),
+        "p" => 8,
+        "rp" => 8,
+        "ropt" => if by_ref { 8 } else if v.is_null() { 1 } else { 5 },
+        "tup" => 4 + 8 + slen(&v[1]),
+        "optstring" => if v.is_null() { 1 } else { 9 + slen(v) },
+        "slo" => if by_ref { 16 } else { 8 + sum(v, &osize) },
+        "slopt" => if by_ref { 16 } else { 8 + sum(v, &|x: &Value| if x.is_null() { 1 } else { 5 }) },
+        "sle" => if by_ref { 16 } else { 8 + sum(v, &esize) },
+        "slu8" => if by_ref { 16 } else { 8 + alen(v) },
+        "sls" => if by_ref { 16 } else { 8 + sum(v, &ssize) },
+        "slstring" => if by_ref { 16 } else { 8 + sum(v, &|x: &Value| 8 + slen(x)) },
+        "slp" | "sltup" => if by_ref { 16 } else { 8 + 8 * alen(v) },
+        "rvo" => if by_ref { 8 } else { 8 + sum(v, &osize) },
+        "veco" => 8 + sum(v, &osize),
+        "ro" => if by_ref { 8 } else { osize(v) },
+        "o" => osize(v),
+        "re" => if by_ref { 8 } else { esize(v) },
+        "e" => esize(v),
+        "roptstring" => if by_ref { 8 } else if v.is_null() { 1 } else { 9 + slen(v) },
+        "rvu32" => if by_ref { 8 } else { 8 + 4 * alen(v) },
+        "u8" | "bool" | "optunit" => 1,
+        "u64" | "tup2" => 8,
+        "tup3" => 3,
+        "char" => 4,
+        _ => 24, // trait objects and closures: data pointer, vtable, entry point
+    }
+}
+/// what the argument occupies when it travels by reference (pointer / fat pointer)
+pub fn pointer_size(kind: &str) -> usize {
+    if kind == "str" || kind.starts_with("sl") { 16 } else { 8 }
+}
+
 /// Model of the caller's argument block (4 bytes version + arguments): whether the derive macro
 /// uses the growable `FlexBuffer` (some argument has no compile-time known size) and how many
 /// bytes are written. Used only to classify states (spilled or not), never for a verdict.
 pub fn model_block(mm: &MethodMeta, args: &[Value], passable: &[bool]) -> (bool, usize) {
     let mut size = 4usize;
     let mut flex = false;
-    let slen = |v: &Value| v.as_str().map(|s| s.len()).unwrap_or(0);
-    let ssize = |v: &Value| 4 + 8 + slen(&v["b"]) + 1;
     for (i, k) in mm.args.iter().enumerate() {
-        let meta = arg_kind(k);
-        if !meta.fixed {
+        if !arg_kind(k).fixed {
             flex = true;
         }
-        let by_ref = passable.get(i).copied().unwrap_or(false);
-        let v = &args[i];
-        size += match *k {
-            "u32" => 4,
-            "ru32" => if by_ref { 8 } else { 4 },
-            "string" => 8 + slen(v),
-            "str" => 16,
-            "rstring" => if by_ref { 8 } else { 8 + slen(v) },
-            "slice" => if by_ref { 16 } else { 8 + 4 * v.as_array().map(|a| a.len()).unwrap_or(0) },
-            "s" => ssize(v),
-            "rs" => if by_ref { 8 } else { ssize(v) },
-            "vecs" => 8 + v.as_array().map(|a| a.iter().map(ssize).sum::<usize>()).unwrap_or(0),
-            "p" => 8,
-            "rp" => 8,
-            "ropt" => if by_ref { 8 } else if v.is_null() { 1 } else { 5 },
-            "tup" => 4 + 8 + slen(&v[1]),
-            "optstring" => if v.is_null() { 1 } else { 9 + slen(v) },
-            _ => 24, // trait objects and closures: data pointer, vtable, entry point
-        };
+        size += model_arg_size(k, &args[i], passable.get(i).copied().unwrap_or(false));
     }
     (flex, size)
 }
